@@ -313,7 +313,7 @@ pub fn eval(case: &Case) -> Out {
 }
 
 pub fn run(ctx: &Ctx) -> i32 {
-    let cases = ctx.tier.pick(40_000, 1_500_000);
+    let cases = ctx.tier.pick(160_000, 5_000_000);
     let is12 = ctx.prop == "C12";
     let agg = run_prop(ctx, "case-tail", 16, cases, strategy, |case: &Case| {
         let o = eval(case);
@@ -322,7 +322,7 @@ pub fn run(ctx: &Ctx) -> i32 {
     let rule = if is12 {
         "arbitrary prefix history (C01 generator plus 25% failed handshakes of every kind, leaked handles, receive buffers 5..256, transmit arenas 32..2048, payloads up to arena-filling) followed by connect() over a healthy transport to a conformant broker. Oracle: connect() succeeds whenever a brand-new session with the same configuration and CONNACK can (differential twin), the new transport's bytes start with one complete CONNECT and parse cleanly, the history model has no objection on that connection, and after draining a usability probe (inbound QoS 1 delivery + ack, QoS 1 publish + PUBACK, subscribe + SUBACK) gives exactly the results a brand-new session gives. Non-trivial = the previous connection ended in a failure / cancellation / leaked handle with something still in flight or owed; distinct = distinct case value."
     } else {
-        "arbitrary prefix history as in C12, followed by the benign continuation: reconnect (session present if the broker still has it), broker acknowledges everything at once, application calls poll() until it blocks (at most 120 times). Oracle: the wait becomes idle within 4*(pending+8)+10 polls and arena+const bytes, the session is publish-quiescent, no handle is pending, no owed acknowledgement or replay is missing, poll() never returned Ok(None) without a completed I/O call anywhere in the history, no packet was completely transmitted twice on one connection, and the count-based watchdog (400000 transport polls) never fired. Unbounded liveness is out of reach for testing; this bounded form is what is decided. Non-trivial = continuation starts with >= 2 items in flight or owed after a failure / cancellation; distinct = distinct case value."
+        "arbitrary prefix history as in C12, followed by the benign continuation: reconnect (session present if the broker still has it), broker acknowledges everything at once, application calls poll() until it blocks (at most 120 times). Oracle: the wait becomes idle within 4*(pending+8)+10 polls and arena+const bytes, the session is publish-quiescent, no handle is pending, no owed acknowledgement or replay is missing, poll() never returned Ok(None) without a completed I/O call anywhere in the history, no packet was completely transmitted twice on one connection, and the count-based watchdog (5 million transport polls, 40 million clock reads per case) never fired. Unbounded liveness is out of reach for testing; this bounded form is what is decided. Non-trivial = continuation starts with >= 2 items in flight or owed after a failure / cancellation; distinct = distinct case value."
     };
     finish(
         ctx,
